@@ -175,3 +175,100 @@ def _pow2_part(d):
     if d == 0:
         return 0
     return d & -d
+
+
+def atoms_of(t, acc=None, depth=0):
+    """non-constant leaves (atoms) of a term: everything that is not an arithmetic / comparison node"""
+    if acc is None:
+        acc = set()
+    if t is None or depth > 80:
+        return acc
+    op = t[0]
+    if op == 'c':
+        return acc
+    if op in POINT_OPS and all(isinstance(x, tuple) for x in t[1:]):
+        for x in t[1:]:
+            atoms_of(x, acc, depth + 1)
+        return acc
+    acc.add(t)
+    return acc
+
+
+POINT_OPS = {'Add', 'Sub', 'Mul', 'Div', 'Rem', 'itof', 'floor', 'fabs', 'Shr', 'Shl', 'BitAnd', 'BitOr', 'BitXor', 'Neg',
+             'Eq', 'Ne', 'Lt', 'Le', 'Gt', 'Ge', 'sqrt', 'min', 'max', 'ftof32', 'trunc'}
+
+
+def point_eval(t, env, depth=0):
+    """value of a term when every atom has the value env[atom]; floats follow IEEE double arithmetic
+    (python floats), integers are exact.  Raises NotNormal on an operator outside POINT_OPS."""
+    import math
+    if t is None or depth > 80:
+        raise NotNormal('no term')
+    op = t[0]
+    if op == 'c':
+        return t[1]
+    if t in env:
+        return env[t]
+    if op not in POINT_OPS:
+        raise NotNormal('operator %s' % op)
+    a = [point_eval(x, env, depth + 1) for x in t[1:] if isinstance(x, tuple)]
+    isf = any(isinstance(x, float) for x in a)
+    if op == 'Add':
+        return a[0] + a[1]
+    if op == 'Sub':
+        return a[0] - a[1]
+    if op == 'Mul':
+        return a[0] * a[1]
+    if op == 'Div':
+        if isf:
+            if a[1] == 0:
+                if a[0] == 0 or a[0] != a[0]:
+                    return float('nan')
+                return math.copysign(float('inf'), a[0]) * math.copysign(1.0, a[1])
+            return a[0] / a[1]
+        if a[1] == 0:
+            raise NotNormal('integer division by zero')
+        q = abs(a[0]) // abs(a[1])
+        return q if (a[0] >= 0) == (a[1] >= 0) else -q
+    if op == 'Rem':
+        if isf:
+            return math.fmod(a[0], a[1])
+        if a[1] == 0:
+            raise NotNormal('integer remainder by zero')
+        r = abs(a[0]) % abs(a[1])
+        return r if a[0] >= 0 else -r
+    if op == 'itof':
+        return float(a[0])
+    if op == 'floor':
+        return float(math.floor(a[0])) if a[0] == a[0] and abs(a[0]) != float('inf') else a[0]
+    if op == 'fabs':
+        return abs(a[0])
+    if op == 'sqrt':
+        return math.sqrt(a[0]) if a[0] >= 0 else float('nan')
+    if op == 'Neg':
+        return -a[0]
+    if op == 'Shr':
+        return a[0] >> a[1]
+    if op == 'Shl':
+        return a[0] << a[1]
+    if op == 'BitAnd':
+        return a[0] & a[1]
+    if op == 'BitOr':
+        return a[0] | a[1]
+    if op == 'BitXor':
+        return a[0] ^ a[1]
+    if op == 'trunc':
+        x, bits, signed = a
+        x &= (1 << bits) - 1
+        if signed and x >> (bits - 1):
+            x -= 1 << bits
+        return x
+    if op == 'ftof32':
+        import struct
+        return struct.unpack('<f', struct.pack('<f', a[0]))[0]
+    if op in ('min', 'max'):
+        return min(a) if op == 'min' else max(a)
+    if op in ('Eq', 'Ne', 'Lt', 'Le', 'Gt', 'Ge'):
+        x, y = a
+        return int({'Eq': x == y, 'Ne': x != y, 'Lt': x < y, 'Le': x <= y, 'Gt': x > y, 'Ge': x >= y}[op])
+    raise NotNormal('operator %s' % op)
